@@ -207,6 +207,21 @@ func ruleC19Selector(c *Ctx, r *Result) {
 			}
 		}
 	}
+	// the hold: time < period AND proposal differs. The two tests may be nested either way; the hold region starts on the
+	// holding edge of the inner one.
+	var holdStart *ssa.BasicBlock
+	holdNested := false
+	if stabIf != nil && diffIf != nil {
+		stabEdge := stabIf.Block().Succs[0]
+		switch {
+		case edgeDominates(stabIf.Block(), stabEdge, diffIf.Block()):
+			holdStart, holdNested = diffEdge, true
+		case edgeDominates(diffIf.Block(), diffEdge, stabIf.Block()):
+			holdStart, holdNested = stabEdge, true
+		default:
+			holdStart = diffEdge
+		}
+	}
 	if confGate == nil {
 		r.Viol("C19.3b", c.Name(fn)+"#confidence-gate-missing", c.Pos(fn.Pos()), "no branch compares the proposal's Confidence with constraints.MinConfidence using < / >=")
 	}
@@ -223,86 +238,100 @@ func ruleC19Selector(c *Ctx, r *Result) {
 		return confGate != nil && allowGate != nil, ""
 	}
 
-	// mode source of a returned Decision
-	modeSource := func(ret *ssa.Return) (string, ssa.Instruction) {
-		if len(ret.Results) != 1 {
-			return "unknown", nil
-		}
-		ld, ok := isLoad(retOperand(ret, 0))
+	// source of one field of a returned Decision: the struct is built here or by a constructor helper whose parameters are
+	// bound to this function's values (scopes.go)
+	var classify func(sc scope, v ssa.Value, field string) string
+	var fieldSource func(sc scope, v ssa.Value, field string, depth int) string
+	isProposal := func(sc scope, x ssa.Value) bool {
+		ld, ok := isLoad(sc.res(x))
+		return ok && ld.X == ssa.Value(decision)
+	}
+	// a by-value Decision parameter is spilled to a local by the SSA builder: the local holds the proposal when its only store does
+	spillOfProposal := func(sc scope, root ssa.Value) bool {
+		al, ok := root.(*ssa.Alloc)
 		if !ok {
-			return "unknown", nil
+			return false
+		}
+		n, good := 0, false
+		for _, ref := range *al.Referrers() {
+			if st, ok := ref.(*ssa.Store); ok && st.Addr == ssa.Value(al) {
+				n++
+				good = isProposal(sc, st.Val)
+			}
+		}
+		return n == 1 && good
+	}
+	classify = func(sc scope, v ssa.Value, field string) string {
+		v = sc.res(v)
+		if k, ok := v.(*ssa.Const); ok && k.Value != nil && k.Value.Kind() == constant.String {
+			if constant.StringVal(k.Value) == modeNone {
+				return "none"
+			}
+			return "constant:" + constant.StringVal(k.Value)
+		}
+		if fl, ok := v.(*ssa.Field); ok {
+			if st, ok := fl.X.Type().Underlying().(*types.Struct); ok && st.Field(fl.Field).Name() == field && isProposal(sc, fl.X) {
+				return "proposal"
+			}
+			return "other"
+		}
+		key, root := fieldLoadKey(v)
+		switch {
+		case key == fLastMode:
+			return "remembered"
+		case (key == fDecMode && field == "Mode" || key == fDecConf && field == "Confidence") && (root == ssa.Value(decision) || spillOfProposal(sc, root)):
+			return "proposal"
+		}
+		return "other"
+	}
+	fieldSource = func(sc scope, v ssa.Value, field string, depth int) string {
+		v = sc.res(v)
+		if isProposal(sc, v) {
+			return "proposal"
+		}
+		if depth < 3 {
+			if rv, hs, ok := helperResult(sc, v); ok {
+				return fieldSource(hs, rv, field, depth+1)
+			}
+		}
+		ld, ok := isLoad(v)
+		if !ok {
+			return "unknown"
 		}
 		al, ok := ld.X.(*ssa.Alloc)
 		if !ok {
-			return "unknown", nil
-		}
-		if al == decision {
-			return "proposal", nil
+			return "unknown"
 		}
 		src := "unset"
-		var at ssa.Instruction
 		for _, ref := range *al.Referrers() {
 			fa, ok := ref.(*ssa.FieldAddr)
 			if !ok {
 				continue
 			}
 			f, _ := fieldOfAddr(fa)
-			if f == nil || f.Name() != "Mode" {
+			if f == nil || f.Name() != field {
 				continue
 			}
 			for _, r2 := range *fa.Referrers() {
-				st, ok := r2.(*ssa.Store)
-				if !ok || st.Addr != ssa.Value(fa) {
-					continue
-				}
-				at = st
-				if k, ok := st.Val.(*ssa.Const); ok && k.Value != nil && k.Value.Kind() == constant.String {
-					if constant.StringVal(k.Value) == modeNone {
-						src = "none"
-					} else {
-						src = "constant:" + constant.StringVal(k.Value)
-					}
-					continue
-				}
-				key, root := fieldLoadKey(st.Val)
-				switch {
-				case key == fLastMode:
-					src = "remembered"
-				case key == fDecMode && root == ssa.Value(decision):
-					src = "proposal"
-				default:
-					src = "other"
+				if st, ok := r2.(*ssa.Store); ok && st.Addr == ssa.Value(fa) {
+					src = classify(sc, st.Val, field)
 				}
 			}
 		}
-		return src, at
+		return src
+	}
+	top := scope{fn: fn, bind: map[ssa.Value]ssa.Value{}}
+	modeSource := func(ret *ssa.Return) (string, ssa.Instruction) {
+		if len(ret.Results) != 1 {
+			return "unknown", nil
+		}
+		return fieldSource(top, retOperand(ret, 0), "Mode", 0), nil
 	}
 	confSource := func(ret *ssa.Return) bool {
-		ld, ok := isLoad(retOperand(ret, 0))
-		if !ok {
+		if len(ret.Results) != 1 {
 			return false
 		}
-		al, ok := ld.X.(*ssa.Alloc)
-		if !ok {
-			return false
-		}
-		if al == decision {
-			return true
-		}
-		good := false
-		for _, ref := range *al.Referrers() {
-			if fa, ok := ref.(*ssa.FieldAddr); ok {
-				if f, _ := fieldOfAddr(fa); f != nil && f.Name() == "Confidence" {
-					for _, r2 := range *fa.Referrers() {
-						if st, ok := r2.(*ssa.Store); ok && st.Addr == ssa.Value(fa) {
-							k, root := fieldLoadKey(st.Val)
-							good = k == fDecConf && root == ssa.Value(decision)
-						}
-					}
-				}
-			}
-		}
-		return good
+		return fieldSource(top, retOperand(ret, 0), "Confidence", 0) == "proposal"
 	}
 	rets := returnsOf(fn)
 	sortInstrs(rets)
@@ -349,7 +378,7 @@ func ruleC19Selector(c *Ctx, r *Result) {
 					ok, why = false, "stored value is not the proposal's Mode"
 				}
 			}
-			if ok && diffEdge != nil && reachableFrom(diffEdge, nil)[fs.In.Block()] {
+			if ok && holdStart != nil && reachableFrom(holdStart, nil)[fs.In.Block()] {
 				ok, why = false, "reachable from the edge where the stability period is running and the proposal differs"
 			}
 			r.Check(ok, "C19.3c", c.Name(fn)+"#"+fs.Key, pos, "memory update past both gates and outside the stability hold "+why)
@@ -365,10 +394,9 @@ func ruleC19Selector(c *Ctx, r *Result) {
 		r.Viol("C19.3d", c.Name(fn)+"#mode-comparison-missing", c.Pos(fn.Pos()), "no branch compares the proposal's Mode with the remembered mode")
 	default:
 		// the mode comparison must sit on the edge where time < period
-		inHold := edgeDominates(stabIf.Block(), stabIf.Block().Succs[0], diffIf.Block())
-		r.Check(inHold, "C19.3d", c.Name(fn)+"#mode-comparison-inside-stability-period", c.InstrPos(diffIf), "the mode comparison is made on the edge where the stability period is still running")
+		r.Check(holdNested, "C19.3d", c.Name(fn)+"#mode-comparison-inside-stability-period", c.InstrPos(diffIf), "the mode comparison and the stability-period test are nested: the hold is entered exactly when the period is still running and the proposal differs")
 		bad := ""
-		region := reachableFrom(diffEdge, nil)
+		region := reachableFrom(holdStart, nil)
 		for _, ret := range rets {
 			if region[ret.Block()] {
 				if src, _ := modeSource(ret); src == "proposal" {
@@ -401,6 +429,20 @@ func ruleC19Selector(c *Ctx, r *Result) {
 	if ia := c.Fn(r, "rebalancing.SafetyConstraints.IsAllowed"); ia != nil {
 		for _, ret := range returnsOf(ia) {
 			k, ok := retOperand(ret, 0).(*ssa.Const)
+			if call, isCall := retOperand(ret, 0).(*ssa.Call); isCall && len(ia.Params) == 2 {
+				// return slices.Contains(s.AllowedModes, mode): true exactly on equality with a list element
+				f := call.Call.StaticCallee()
+				if f != nil && f.Origin() != nil {
+					f = f.Origin()
+				}
+				if f != nil && f.Pkg != nil && f.Pkg.Pkg.Path() == "slices" && f.Name() == "Contains" && len(call.Call.Args) == 2 && call.Call.Args[1] == ssa.Value(ia.Params[1]) {
+					if key, _ := fieldLoadKey(call.Call.Args[0]); strings.HasSuffix(key, ".AllowedModes") {
+						r.Hold("C19.3f", c.Name(ia)+"#return-true", c.InstrPos(ret), "slices.Contains(AllowedModes, mode): true only on equality with a list element")
+						r.Hold("C19.3f", c.Name(ia)+"#return-false", c.InstrPos(ret), "slices.Contains(AllowedModes, mode): false otherwise")
+						continue
+					}
+				}
+			}
 			if !ok {
 				r.Viol("C19.3f", c.Name(ia)+"#non-constant-result", c.InstrPos(ret), "result is not a constant decided by the list")
 				continue
@@ -484,6 +526,26 @@ func ruleC19Confidence(c *Ctx, r *Result) {
 					lo, hi = math.Min(lo, y), math.Max(hi, y)
 				}
 				out = frange{lo, hi}
+			}
+		case *ssa.Call:
+			// min / max (builtin or math.Min / math.Max) over intervals
+			kind := ""
+			if b, ok := x.Call.Value.(*ssa.Builtin); ok && (b.Name() == "min" || b.Name() == "max") {
+				kind = b.Name()
+			} else if f := x.Call.StaticCallee(); f != nil && f.Pkg != nil && f.Pkg.Pkg.Path() == "math" && (f.Name() == "Min" || f.Name() == "Max") {
+				kind = strings.ToLower(f.Name())
+			}
+			if kind != "" && len(x.Call.Args) > 0 {
+				acc := eval(x.Call.Args[0])
+				for _, a := range x.Call.Args[1:] {
+					ar := eval(a)
+					if kind == "min" {
+						acc = frange{math.Min(acc.lo, ar.lo), math.Min(acc.hi, ar.hi)}
+					} else {
+						acc = frange{math.Max(acc.lo, ar.lo), math.Max(acc.hi, ar.hi)}
+					}
+				}
+				out = acc
 			}
 		case *ssa.Phi:
 			lo, hi := math.Inf(1), math.Inf(-1)
